@@ -1,7 +1,7 @@
 (** Correspondence judge for C10: compares what the Go code produced (recorded in the case by the harness)
     with the faithful builder model (tie flags) and with the specification: the verified well-formedness
     validator, the arc-field checker, the geometry oracle and the Grid cell oracle (property flags). *)
-From Coq Require Import ZArith QArith Qminmax List Bool.
+From Coq Require Import ZArith QArith Qabs Qminmax List Bool.
 From CV Require Import PathEnc.Slices Base.Dy PathEnc.Enc PathEnc.Builder PathEnc.Trace PathEnc.Scanner.
 Import ListNotations.
 Open Scope Z_scope.
@@ -27,6 +27,9 @@ Inductive case10 :=
 | KGrid (w h : num) (nx ny : Z) (r : num) (god : list num) (panic : bool)
 | KCmdLen (tab : list (Z * Z))
 | KSlice (a0 : list num) (len0 : nat) (ops : list slop) (views : list (list num))
+(* Path.Arc after a MoveTo to s: radii, exact rotation (cs, sn), unit-circle points of the start and end angle (multiples of 90
+   degrees), number of stored arcs expected, direction; the data Go built *)
+| KArcB (s : pt) (rx ry cs sn : Q) (u0 u1 : pt) (narcs : Z) (sweep : bool) (god : list num) (panic : bool)
 | KNone.
 
 Fixpoint data_eqb (a b : list num) : bool :=
@@ -141,6 +144,34 @@ Definition judge (c : case10) : list Z :=
     if panic then [64; 0; 0] else let '(fl, n) := judge_data god in [fl; n; 0]
   | KSlice a0 len0 ops views =>
     [bit (negb (views_eqb (sl_run a0 len0 ops) views)) 1; Z.of_nat (length ops); 0]
+  | KArcB s rx ry cs sn u0 u1 narcs sweep god panic =>
+    if panic then [64; 0; 0]
+    else
+      let '(fl, n) := judge_data god in
+      let E (u : pt) : pt := ((cs * rx * fst u - sn * ry * snd u)%Q, (sn * rx * fst u + cs * ry * snd u)%Q) in
+      let c := ((fst s - fst (E u0))%Q, (snd s - snd (E u0))%Q) in
+      let sl := (1 # 1000000000)%Q in
+      let on_ell (p : pt) : bool :=
+        let dx := (fst p - fst c)%Q in let dy := (snd p - snd c)%Q in
+        let x := ((cs * dx + sn * dy) / rx)%Q in let y := ((- sn * dx + cs * dy) / ry)%Q in
+        Qle_bool (Qabs (x * x + y * y - 1)%Q) sl in
+      let close (a b : pt) : bool :=
+        Qle_bool (Qabs (fst a - fst b)%Q) (sl * (1 + Qabs (fst b)))%Q && Qle_bool (Qabs (snd a - snd b)%Q) (sl * (1 + Qabs (snd b)))%Q in
+      let ok :=
+        match decode_fwd god with
+        | Some (SM p0 :: segs) =>
+            close p0 s && (Z.of_nat (length segs) =? narcs) &&
+            forallb (fun g => match g with
+                              | SA rx' ry' _ fl' e =>
+                                  (* the radii as requested (ArcTo swaps them for rx < ry and may scale them up by rounding noise) *)
+                                  (let near a b := Qle_bool (Qabs (a - b)%Q) (sl * Qabs b)%Q in
+                                   (near rx' rx && near ry' ry) || (near rx' ry && near ry' rx)) && on_ell e &&
+                                  Bool.eqb (Qeq_bool fl' 2 || Qeq_bool fl' 3) sweep
+                              | _ => false end) segs &&
+            close (seg_end (last segs (SM p0))) ((fst c + fst (E u1))%Q, (snd c + snd (E u1))%Q)
+        | _ => false
+        end in
+      [fl + bit (negb ok) 2048; n; 0]
   | KGrid w h nx ny r god panic =>
     if panic then [64; 0; 0]
     else let '(fl, n) := judge_data god in [fl + bit (negb (grid_ok w h nx ny r god)) 16; n; 0]
